@@ -28,7 +28,7 @@ type bpmSlot struct {
 func H_bpm() {
 	nOver := vParam("overrides", 1)
 	diamond := vParam("diamond", 0) != 0
-	const U = 16 // id universe 0..U-1; base ids are 0..14, 15 is a fresh type
+	const U = 18 // id universe 0..U-1; base ids are 0..16, 17 is a fresh type
 
 	// ---- base configuration: every slot has its own id
 	var slots []bpmSlot
@@ -51,6 +51,8 @@ func H_bpm() {
 	sBC := add(3, 10, true)
 	sVD := add(4, 11, false)
 	sPD := add(4, 12, false)
+	sFT := add(0, 13, false)  // a field provider directly in the Build set
+	sBA := add(1, 14, true)   // a second binding, in set A
 	nSlots := len(slots)
 
 	// ---- symbolic overrides
@@ -71,6 +73,8 @@ func H_bpm() {
 	}
 	concT := vInt("concT", 0, U-1)
 	concC := vInt("concC", 0, U-1)
+	concA := vInt("concA", 0, U-1)
+	vAssume(concA != slots[sBA].id)
 	// a binding never binds an interface to itself (processBind rejects that)
 	vAssume(concT != slots[sBT].id)
 	vAssume(concC != slots[sBC].id)
@@ -90,6 +94,8 @@ func H_bpm() {
 	T.Providers = []*Provider{{Pkg: pkg, Name: "PT", Out: []types.Type{ty(sPT)}}}
 	T.Values = []*Value{{Out: ty(sVT)}}
 	T.Bindings = []*IfaceBinding{{Iface: ty(sBT), Provided: vType(concT)}}
+	T.Fields = []*Field{{Parent: vType(U + 3), Name: "FT", Pkg: pkg, Out: []types.Type{ty(sFT)}}}
+	A.Bindings = []*IfaceBinding{{Iface: ty(sBA), Provided: vType(concA)}}
 	A.Providers = []*Provider{{Pkg: pkg, Name: "SA", IsStruct: true, Out: []types.Type{ty(sSA1), ty(sSA2)}}}
 	A.Fields = []*Field{{Parent: vType(U + 1), Name: "FA", Pkg: pkg, Out: []types.Type{ty(sFA)}}}
 	B.Fields = []*Field{{Parent: vType(U + 2), Name: "FPB", Pkg: pkg, Out: []types.Type{ty(sFPB1), ty(sFPB2)}}}
@@ -139,6 +145,9 @@ func H_bpm() {
 			conc := concT
 			if s == sBC {
 				conc = concC
+			}
+			if s == sBA {
+				conc = concA
 			}
 			have := false
 			for _, o := range occ {
@@ -201,6 +210,7 @@ func H_bpm() {
 	// the binding aliases the concrete entry
 	vA("C11", T.providerMap.At(ty(sBT)) == T.providerMap.At(vType(concT)), "an interface binding maps to the very entry of its concrete type")
 	_ = sVT
+	_ = sFT
 	_ = sFA
 	_ = sVB
 	_ = sVD
